@@ -176,3 +176,41 @@ pub fn gen_accept_implies_readback(r: &mut Rng) -> String {
     let rests: Vec<String> = e.iter().map(|_| { let s = if r.below(3) == 0 { "a\0b" } else { "x\ty" }; s.replace("\\0", "\0").bytes().map(|b| format!("{:02x}", b)).collect() }).collect();
     format!("entries={} rests={}", fmt_entries(&e), rests.join(";"))
 }
+
+/// C06 across chromosomes: args: a=s,e;...  b=s,e;...  (entries of chrA and chrB)  [multipass=1]
+pub fn run_summary2(a: &Args) -> Result<(), String> {
+    let ea = parse_entries(a.get("a").ok_or("a")?);
+    let eb = parse_entries(a.get("b").ok_or("b")?);
+    let multipass = a.get("multipass").map(|s| s == "1").unwrap_or(false);
+    let len: u32 = ea.iter().chain(eb.iter()).map(|v| v.1).max().unwrap_or(0) + 10;
+    let tf = tempfile::NamedTempFile::new().map_err(|e| e.to_string())?;
+    let chrom_map = HashMap::from([("chrA".to_string(), len), ("chrB".to_string(), len)]);
+    let mut out = BigBedWrite::create_file(tf.path(), chrom_map).map_err(|e| e.to_string())?;
+    out.options.inmemory = true; out.options.channel_size = 0; out.options.compress = false;
+    let runtime = tokio::runtime::Builder::new_current_thread().build().unwrap();
+    let mut v: Vec<(String, BedEntry)> = vec![];
+    for (i, &(s, e)) in ea.iter().enumerate() { v.push(("chrA".to_string(), BedEntry { start: s, end: e, rest: format!("a{}", i) })); }
+    for (i, &(s, e)) in eb.iter().enumerate() { v.push(("chrB".to_string(), BedEntry { start: s, end: e, rest: format!("b{}", i) })); }
+    if multipass { out.write_multipass(|| Ok(BedParserStreamingIterator::wrap_infallible_iter(v.clone().into_iter(), false)), runtime).map_err(|e| format!("write error: {}", e))?; }
+    else { out.write(BedParserStreamingIterator::wrap_infallible_iter(v.into_iter(), false), runtime).map_err(|e| format!("write error: {}", e))?; }
+    let mut r = BigBedRead::open_file(tf.path()).map_err(|e| format!("open: {}", e))?;
+    let s = r.get_summary().map_err(|e| e.to_string())?;
+    let (ba, sa, qa, mna, mxa) = depth_stats(&ea, 0, len);
+    let (bb_, sb, qb, mnb, mxb) = depth_stats(&eb, 0, len);
+    if s.bases_covered != ba + bb_ { return Err(format!("bases_covered={} expected {}", s.bases_covered, ba + bb_)); }
+    if (s.sum - (sa + sb)).abs() > 1e-6 || (s.sum_squares - (qa + qb)).abs() > 1e-6 { return Err(format!("sum/sum_squares={}/{} expected {}/{}", s.sum, s.sum_squares, sa + sb, qa + qb)); }
+    if ba + bb_ > 0 {
+        let mn = if ba > 0 && bb_ > 0 { mna.min(mnb) } else if ba > 0 { mna } else { mnb };
+        let mx = if ba > 0 && bb_ > 0 { mxa.max(mxb) } else if ba > 0 { mxa } else { mxb };
+        if s.min_val != mn || s.max_val != mx { return Err(format!("summary min/max={}/{} but the covered bases have depth {}..{}", s.min_val, s.max_val, mn, mx)); }
+    }
+    if s.total_items != (ea.len() + eb.len()) as u64 { return Err(format!("item count {} expected {}", s.total_items, ea.len() + eb.len())); }
+    Ok(())
+}
+pub fn gen_summary2(r: &mut Rng) -> String {
+    let mut a = gen_entries(r, 4); let mut b = gen_entries(r, 4);
+    if r.below(3) == 0 { a = a.iter().map(|x| (x.0, x.0)).collect(); }
+    if r.below(3) == 0 { b = b.iter().map(|x| (x.0.max(1), x.0.max(1))).collect(); }
+    let a: Vec<(u32,u32)> = a.into_iter().map(|x| if x == (0, 0) { (1, 1) } else { x }).collect();
+    format!("multipass={} a={} b={}", r.below(2), fmt_entries(&a), fmt_entries(&b))
+}
